@@ -12,6 +12,23 @@ NOT_APPLICABLE = {}
 HOOK_COMMITS = []
 
 CHECKS = {
+    "C17": {
+        "run": "^TestC17_",
+        "rule": ("cases = (ToChannel | FromChannel, channel capacity 0-3, script and ending, consumer behaviour {reads to the end, pauses between reads, stops after k reads}, Unsubscribe after k "
+                 "reads / sends, synchronous or asynchronous source, producer closes or abandons the channel) enumerated; (ToSlice, ToMap, Collect, Materialize|Dematerialize) x every word "
+                 "up to the stated length (illegal suffixes included) plus rapid scripts. Non-trivial = a cut, a stalled or stopping consumer, capacity below the number of values, or an "
+                 "error ending; distinct by descriptor hash."),
+        "quick": {"rapid": 300, "timeout": 300, "shards": 4},
+        "thorough": {"rapid": 5000, "timeout": 3000, "shards": 16},
+        "assumptions": COMMON_ASSUMPTIONS + ["testing/synctest quiescence decides 'the reader is not blocked', 'the producer has returned' and 'no goroutine is left'"],
+        "technique": "property-based testing: enumerated consumer/producer behaviours in synctest bubbles with a materialised-sequence oracle; round-trip and model oracles for the synchronous bridges",
+        "level_text": ("Exploration. ToChannel: exactly one channel is handed out; what a consumer reads is the materialised notification sequence in order (a prefix when cut); the channel "
+                       "is closed after the terminal notification or on unsubscription; the producer's own calls never panic and never stay blocked once the consumer has unsubscribed. "
+                       "FromChannel: every value sent before the close is delivered, then Complete; no completion without a close; after Unsubscribe nothing is delivered, later values "
+                       "stay in the channel, and the reader goroutine exits (a leftover is reported when the bubble ends). ToSlice / ToMap / Collect equal the delivered values (last "
+                       "write wins), emitted once at completion; Materialize|Dematerialize is the identity on every word, including producers that go on after their terminal."),
+        "level_note": "A send that loses the race with the close is recovered inside the library and may reach OnUnhandledError: counted, not judged (it is the designated sink).",
+    },
     "C16": {
         "run": "^TestC16_",
         "rule": ("virtual time: cases = (time-driven operator, duration 1-50 ms, count / initial delay, source timeline given by inter-arrival gaps (bursts of 0, gaps just below / equal / "
